@@ -148,6 +148,40 @@ func (w *vfailWriter) Write(p []byte) (int, error) {
 
 // vprobeLineLimit measures the stream processor's line limit as the compiled program has it: the smallest length L such that
 // a line of L bytes followed by a newline makes ProcessMongoLogFileFromReader stop with an error (0: none up to 32 MiB).
+// vprobePlaceholders measures the two placeholders that are not package constants (they are written inside functions): what the program puts in
+// the place of an e-mail-shaped literal, and of the client address under --redactIPs. Found by redacting a probe line, whatever the code looks like.
+func vprobePlaceholders() (email string, ip string) {
+	defer func() { _ = recover() }()
+	probe := func(line string, path ...string) string {
+		redacted, err := RedactMongoLog(line)
+		if err != nil {
+			return ""
+		}
+		out, err := MarshalOrdered(redacted)
+		if err != nil {
+			return ""
+		}
+		var cur any
+		if json.Unmarshal(out, &cur) != nil {
+			return ""
+		}
+		for _, k := range path {
+			m, ok := cur.(map[string]any)
+			if !ok {
+				return ""
+			}
+			cur = m[k]
+		}
+		s, _ := cur.(string)
+		return s
+	}
+	email = probe(`{"c":"COMMAND","attr":{"command":{"find":"c","filter":{"e":"probe.user@example.org"}}}}`, "attr", "command", "filter", "e")
+	SetRedactIPs(true)
+	ip = probe(`{"c":"COMMAND","attr":{"remote":"203.0.113.77:41234","command":{"find":"c","filter":{}}}}`, "attr", "remote")
+	SetRedactIPs(false)
+	return
+}
+
 func vprobeLineLimit() int {
 	fails := func(n int) bool {
 		data := append(bytes.Repeat([]byte{'x'}, n), '\n')
@@ -481,6 +515,7 @@ func vserve(rq *vreq, out *bufio.Writer) {
 		vrespond(out, vatlas(rq))
 	case "dump":
 		keys := []string{}
+		probedEmail, probedIP := vprobePlaceholders()
 		tables := map[string]any{
 			"Agg":       vdumpMeta(AggregationOperators),
 			"Core":      vdumpMeta(CoreOperators),
@@ -497,6 +532,7 @@ func vserve(rq *vreq, out *bufio.Writer) {
 			"TopSearch": TopLevelSearchOperators,
 			"otypes":    map[string]int{"Pipeline": int(Pipeline), "Exempt": int(Exempt), "Redactable": int(Redactable), "FieldName": int(FieldName), "OperatorArray": int(OperatorArray), "OperatorMap": int(OperatorMap), "Namespace": int(Namespace)},
 			"max_token": vprobeLineLimit(),
+			"probed":    map[string]any{"email_placeholder": probedEmail, "ip_placeholder": probedIP},
 			"consts": map[string]any{
 				"RedactedISODate": RedactedISODate, "RedactedString": RedactedString, "RedactedNumber": RedactedNumber,
 				"RedactedBoolean": RedactedBoolean, "RedactedObjectId": RedactedObjectId, "RedactedUUID": RedactedUUID,
